@@ -52,6 +52,7 @@ func runC09(c *Ctx) {
 	queryTable(c, "C09.query-table")
 	addAtomic(c, "C09.add-atomic")
 	ctreeExposure(c, "C09.exposure")
+	contentWriters(c, "C09.content-writers")
 	// ---- sorted
 	_, nRoots := mapOrderAudit(c, "C09.sorted", []*ssa.Function{wis, str}, true)
 	c.Floor("C09.sorted/functions-ranging-over-children", nRoots, 2)
@@ -336,7 +337,7 @@ func runC09(c *Ctx) {
 			a := &Atoms{Class: cls, Bool: map[string]bool{"ISBRANCH": false, "EMPTY": empty}, Int: map[string]int64{"NILLEN": 0}}
 			e := &PPA{Cond: a.Cond, MaxVisits: 2,
 				Inline: func(fr *Frame, call ssa.CallInstruction, callee *ssa.Function) bool {
-					return callee.Pkg == f.Pkg && (callee.Name() == "IsBranch" || callee.Name() == "isBranch")
+					return callee.Pkg == f.Pkg && (fbase(callee) == "IsBranch" || fbase(callee) == "isBranch")
 				},
 				Watch: func(ev *Ev) bool {
 					return strings.HasPrefix(ev.Label, "call:dyn:") && e2v(ev) == vp
